@@ -299,6 +299,13 @@ func (f *Fixture) Mint(ctx sdk.Context, to sdk.AccAddress, coins sdk.Coins) {
 	if err := f.Bank.MintCoins(ctx, authtypes.Minter, coins); err != nil {
 		panic(err)
 	}
+	if to.Equals(authtypes.NewModuleAddress(opchildtypes.ModuleName)) {
+		// genesis funds of the module account itself (blocked as a recipient of account transfers)
+		if err := f.Bank.SendCoinsFromModuleToModule(ctx, authtypes.Minter, opchildtypes.ModuleName, coins); err != nil {
+			panic(err)
+		}
+		return
+	}
 	if err := f.Bank.SendCoinsFromModuleToAccount(ctx, authtypes.Minter, to, coins); err != nil {
 		panic(err)
 	}
